@@ -230,9 +230,9 @@ REGISTRY = {
     "C10": {
         "title": "documented v1/v2/v3 layout",
         "teq": [
-            {"engine": "codec", "quick": {}, "thorough": {"tier": "thorough"}, "oracle": False, "mismatch_is_failure": True,
+            {"engine": "codec", "quick": {}, "thorough": {"tier": "thorough"}, "oracle": True, "mismatch_is_failure": True,
              "nontrivial": lambda case, res: True,
-             "what": "pure format functions through hook H3 (crc32c, record/marker tokens, marker fill, journal encode/decode with damaged slots, metadata encode/decode, record serialize/parse/header_range/stamp/sector_holds for v1,v2,v3 at boundary key and value lengths) vs the Coq codecs written from the documented layout"},
+             "what": "pure format functions through hook H3 (crc32c, record/marker tokens, marker fill, journal encode/decode with damaged slots, metadata encode/decode, record serialize/parse/header_range/stamp/sector_holds for v1,v2,v3 at boundary key and value lengths) vs the Coq codecs written from the documented layout; oracle: every journal image the encoder accepts -- the largest transactions it accepts included -- fits the three blocks of its slot"},
             {"engine": "flushimg", "quick": {}, "thorough": {"tier": "thorough"}, "oracle": True, "mismatch_is_failure": True,
              "nontrivial": lambda case, res: res.startswith("flushed") and "keys=-" not in res,
              "distinct_key": lambda case, res: res,
